@@ -80,6 +80,33 @@ def detect(name, checks=None, tier='quick'):
     d = os.path.join(SEEDED, name)
     meta = json.load(open(os.path.join(d, 'meta.json')))
     checks = checks or [meta['property']]
+    if os.environ.get('VT_DETECT_SCRATCH'):
+        # parallel-safe variant: the change is applied to a scratch copy of pytenet (as in vt/selftest.py), /repo is only read
+        from . import selftest
+        import tempfile, subprocess
+        base = tempfile.mkdtemp(prefix='vtdet_', dir=os.environ.get('TMPDIR', '/dev/shm'))
+        out = {}
+        try:
+            selftest._copy_repo(base)
+            r = subprocess.run(['patch', '-p1', '-s', '-d', base, '-i', os.path.join(d, 'patch.diff')], capture_output=True, text=True)
+            if r.returncode != 0:
+                raise SystemExit('patch does not apply: ' + (r.stdout + r.stderr)[-200:])
+            for pid in checks:
+                t0 = time.time()
+                env = dict(os.environ, VT_NO_EVIDENCE='1', VT_REPO=base)
+                rc, o = sh(['python3-vt', '-m', 'vt.cli', 'check', pid, '--tier', tier], cwd=VERIF, env=env, timeout=3600)
+                viol = [l for l in o.splitlines() if l.startswith('VIOLATION')]
+                out[pid] = dict(exit=rc, seconds=round(time.time() - t0, 1),
+                                violations=[(' '.join(v.split()[3:]) or v.split('replay=')[1].split('/')[-1])[:160] for v in viol][:8],
+                                undecided=[l.split('obligation=')[1].split(' (')[0][:90] for l in o.splitlines() if l.startswith('UNDECIDED')][:12],
+                                n_violations=len(viol), broken=[l[:200] for l in o.splitlines() if l.startswith('CHECKER-BROKEN')][:2],
+                                summary=[l for l in o.splitlines() if l.startswith(pid + ' [')][:1])
+        finally:
+            shutil.rmtree(base, ignore_errors=True)
+        meta.setdefault('detection', {}).update(out)
+        meta['detected'] = any(v['exit'] == 1 for v in meta['detection'].values())
+        json.dump(meta, open(os.path.join(d, 'meta.json'), 'w'), indent=1)
+        return out
     import fcntl
     lock = open('/tmp/vt_repo.lock', 'w')
     fcntl.flock(lock, fcntl.LOCK_EX)          # /repo is shared: one detection at a time
